@@ -140,7 +140,7 @@ PROPS["C14"] = {
                      "lstat of host device nodes given to the model as data"],
     "assumptions": ["container paths inside one request are distinct (so the OCI device list is in node order)"],
     "technique": "Lean 4 proof on a heap model: injection with fill-a-copy leaves every cached record unchanged, hence any later injection equals a fresh cache's; in-place fill refuted by witness; before/after cache images and host-change histories on the real cache",
-    "level_text": "Kernel-checked theorems for every heap of cached device-node records, reference list and sequence of host states: the repaired injection writes no cached record (whether it succeeds or fails at any node), so after any number of injections the next one returns exactly what a fresh cache returns under the current host state; the in-place variant (pinned tree) is refuted by a two-step witness (stale major/minor, cached record changed). Tied to the code by histories on a real cache: spec files with device nodes leaving type/major/minor/hostPath unspecified, host nodes created with mknod, injection (InjectDevices / Device.ApplyEdits / Spec.ApplyEdits), host nodes replaced by other types and numbers (or removed), second injection, then the cached nodes read back through the query API and Cache.WriteSpec of the cached Spec.",
+    "level_text": "Kernel-checked theorems for every heap of cached device-node records, reference list and sequence of host states: the repaired injection writes no cached record (whether it succeeds or fails at any node), so after any number of injections the next one returns exactly what a fresh cache returns under the current host state; the in-place variant (pinned tree) is refuted by a two-step witness (stale major/minor, cached record changed). Tied to the code by histories on a real cache: spec files with device nodes leaving type/major/minor/hostPath unspecified, host nodes created with mknod, injection (InjectDevices / Device.ApplyEdits / Spec.ApplyEdits), host nodes replaced by other types and numbers (or removed), second injection, then the cached nodes read back through the query API and Cache.WriteSpec of the cached Spec. The injections of the cache stream add (read as a secondary stream): every listed device injected in between and compared with a new cache, a re-used OCI spec object, and - on a manually refreshed cache - a Spec file appearing on disk while failing requests are made: the listings must not move.",
     "level_note": "Trusted: Lean kernel; the heap abstraction (only device-node records are shared mutable state reachable from Apply).",
 }
 
@@ -203,8 +203,8 @@ PROPS["C19"] = {
     "trusted_base": ["cobra/pflag option parsing; the JSON/YAML pretty-printers of the inject command (third-party)",
                      "factgen F10: which cache the helpers consult and whether --spec-dirs configures it"],
     "assumptions": ["directory names contain no comma (pflag StringSlice)"],
-    "technique": "translation validation of the rebuilt cdi/validate binaries against in-process library calls through the Lean renderers (listing lines, error files, exit status) + Lean theorems: renderers are injective, exit status iff errors; fact obligation on the cache wiring",
-    "level_text": "On every run the cdi and validate binaries are rebuilt from /repo. For generated directory populations (the C01 layouts incl. invalid files, conflicts, missing directories) each listing sub-command is run with --spec-dirs and its stdout must equal the Lean renderer applied to what the library computes in-process for the same directories; when the library reports cache errors the tool must exit non-zero and name exactly the files in error, otherwise exit zero. `cdi inject` output is parsed back and compared with library injection of the glob-selected devices. The validate tool's exit status is compared with schema validation of the same document for the builtin and none schemas, JSON and YAML. Kernel-checked theorems: each renderer is injective (the printed listing determines the list), and the exit-status functions are exact; a regenerated fact states that the sub-commands read the cache that --spec-dirs configures.",
+    "technique": "translation validation of the rebuilt cdi/validate binaries against in-process library calls through the Lean renderers (listing lines, error files, exit status) + Lean theorems: renderers are injective, exit status iff errors; fact obligation on the cache wiring; model of --verbose/--output/dirs/vendor arguments/inject pattern selection with injectivity and set-semantics theorems",
+    "level_text": "On every run the cdi and validate binaries are rebuilt from /repo. For generated directory populations (the C01 layouts incl. invalid files, conflicts, missing directories) each listing sub-command is run with --spec-dirs and its stdout must equal the Lean renderer applied to what the library computes in-process for the same directories; when the library reports cache errors the tool must exit non-zero and name exactly the files in error, otherwise exit zero. `cdi inject` output is parsed back and compared with library injection of the glob-selected devices. The validate tool's exit status is compared with schema validation of the same document for the builtin and none schemas, JSON and YAML. Kernel-checked theorems: each renderer is injective (the printed listing determines the list), and the exit-status functions are exact; a regenerated fact states that the sub-commands read the cache that --spec-dirs configures. The detailed forms are covered the same way: `devices -v` and `specs -v` with every --output choice (also one the tool does not know), `specs` with vendor arguments, `dirs`; the Lean model holds chooseFormat, the choice of pretty-printer, marshalObject's indentation, the verbose blocks and the device selection of `inject` (patterns act as a set; exactly the matched devices, once each, sorted - proved), the harness supplies the pretty-printed objects and filepath.Match's verdicts. OCI specs given to `inject` also carry members the tool's runtime-spec version does not know.",
     "level_note": "Partial: cobra parsing and the pretty-printers are third-party and only exercised. Trusted: Lean kernel for the renderer theorems; factgen F10.",
 }
 
@@ -220,7 +220,7 @@ PROPS["C11"] = {
     "assumptions": ["I8: the alphabet is the one of the statement (files created, rewritten, replaced by rename, moved or linked in, renamed away, removed; the directory missing at start, created, removed, recreated) - the configured directory itself is not renamed",
                     "'soon' = within the polling deadline (4 s) after the history ends"],
     "technique": "Lean 4 proof: inductive invariant of the watch/update/scan/query state machine over every interleaving with file-system operations => convergence once the queue is drained; pinned defects refuted by witnesses; histories on the real kernel at several pacings incl. controlled pacing through the exported cache mutex",
-    "level_text": "Kernel-checked theorem over the abstract state machine of one configured directory (kernel watch attached or not, watcher's belief, event queue, pending scan, staleness): for every finite history of file-system operations interleaved in any way with the watcher's event handling, its scans (file-system operations may fall between update and scan) and queries, once the queue is drained the next query is not stale, i.e. returns what a fresh cache returns; the proof is an invariant preserved by every step, with no bound on the history. Both defects of the pinned tree (Create events dropped; a directory scanned while unwatched and then removed) are counterexamples proved in Lean and reproduced on the real code. Tied to the code by validating the event table with a plain fsnotify watcher and by running fixed and random histories against a real auto-refresh cache (no Refresh call) at three pacings plus controlled pacing (the harness holds the exported cache mutex across groups of operations), polling queries until they equal a fresh cache; histories over two and three directories (a later directory goes away and comes back with a Spec overriding a device that still resolves), a query that falls into a slow scan of the watcher goroutine, and observation the way a container runtime does it (one InjectDevices call naming the expected devices and no other query). Obligation F9_scan_and_publication_atomic (regenerated from cache.go): in every entry point and in the watcher goroutine a directory scan happens under the mutex and its result is published before the mutex is released - the atomicity of the machine's scan and query steps.",
+    "level_text": "Kernel-checked theorem over the abstract state machine of one configured directory (kernel watch attached or not, watcher's belief, event queue, pending scan, staleness): for every finite history of file-system operations interleaved in any way with the watcher's event handling, its scans (file-system operations may fall between update and scan) and queries, once the queue is drained the next query is not stale, i.e. returns what a fresh cache returns; the proof is an invariant preserved by every step, with no bound on the history. Both defects of the pinned tree (Create events dropped; a directory scanned while unwatched and then removed) are counterexamples proved in Lean and reproduced on the real code. Tied to the code by validating the event table with a plain fsnotify watcher and by running fixed and random histories against a real auto-refresh cache (no Refresh call) at three pacings plus controlled pacing (the harness holds the exported cache mutex across groups of operations), polling queries until they equal a fresh cache; histories over two and three directories (a later directory goes away and comes back with a Spec overriding a device that still resolves), a query that falls into a slow scan of the watcher goroutine, and observation the way a container runtime does it (one InjectDevices call naming the expected devices and no other query). Obligation F9_scan_and_publication_atomic (regenerated from cache.go): in every entry point and in the watcher goroutine a directory scan happens under the mutex and its result is published before the mutex is released - the atomicity of the machine's scan and query steps. Events may be lost: the machine has a `drop` step (the kernel drops the newest queued event and leaves its overflow marker), the invariant does not count events, and the convergence theorems (one directory, any number of directories, from the creation of the cache on) quantify over schedules with losses; the regenerated fact F7b says the watcher's Errors case rescans. The watch stream makes the real inotify queue overflow (op `overflow`) and requires the file written meanwhile, and a later one, to show up; Specs installed as symbolic links are part of the fixed histories.",
     "level_note": "Partial: inotify semantics, queue overflow, goroutine scheduling and timing are the kernel's and runtime's; the model covers one directory (directories are independent in watch.update).",
 }
 
@@ -235,7 +235,7 @@ PROPS["C08"] = {
     "assumptions": ["'hang' = an entry point does not return within 20 s (60 s for a batch of files fed to an auto-refresh cache)",
                     "OCI specs and edits are finite values; host device lookups are any function"],
     "technique": "Lean 4 proof: union of the totality theorems of the models (validation and minimum version on every decoded value incl. null entries; names; annotations; directory scan; apply on everything validation admits, via 'admitted => no nil entry'); crash stream: byte-mutated .json/.yaml documents, names and annotation maps through every entry point C08 names, incl. auto-refresh caches in a child process",
-    "level_text": "Kernel-checked theorems: for every value of the decoded data model (any strings, null list entries, any integers) validation and the minimum-version computation return without a panic outcome; everything validation admits has no null entries and applying its Spec-level and device edits to any OCI spec on any host never panics; the name parser/validators, ParseAnnotations, AnnotationKey and UpdateAnnotations return a result for every byte string / map; a directory scan completes whatever its entries are. Tied to the code by the correspondence streams of C03/C05/C07/C15/C17 (each compares panics too) and by a crash stream: thousands of byte-level mutations of JSON and YAML Spec documents (incl. deep nesting, alias bombs, nulls, huge numbers, invalid UTF-8), written as .json/.yaml and passed to ReadSpec, ParseSpec, schema validation (data, reader, file, typed), MinimumRequiredVersion, Cache.Refresh + InjectDevices of every loaded device into several OCI specs, under recover and a deadline; batches of the same files fed to an auto-refresh cache in a child process, after which a valid Spec must still be picked up by the background goroutine; mutated names and annotation maps through every parser/annotation entry point.",
+    "level_text": "Kernel-checked theorems: for every value of the decoded data model (any strings, null list entries, any integers) validation and the minimum-version computation return without a panic outcome; everything validation admits has no null entries and applying its Spec-level and device edits to any OCI spec on any host never panics; the name parser/validators, ParseAnnotations, AnnotationKey and UpdateAnnotations return a result for every byte string / map; a directory scan completes whatever its entries are. Tied to the code by the correspondence streams of C03/C05/C07/C15/C17 (each compares panics too) and by a crash stream: thousands of byte-level mutations of JSON and YAML Spec documents (incl. deep nesting, alias bombs, nulls, huge numbers, invalid UTF-8), written as .json/.yaml and passed to ReadSpec, ParseSpec, schema validation (data, reader, file, typed), MinimumRequiredVersion, Cache.Refresh + InjectDevices of every loaded device into several OCI specs, under recover and a deadline; batches of the same files fed to an auto-refresh cache in a child process, after which a valid Spec must still be picked up by the background goroutine; mutated names and annotation maps through every parser/annotation entry point. Every case of every stream runs under a deadline: a call that does not return is reported as `hang` with the case.",
     "level_note": "Partial: the decoders and the schema library are searched, not proved; 'never hangs' is a deadline in the search and structural termination in the models.",
 }
 
@@ -254,7 +254,7 @@ PROPS["C12"] = {
     "assumptions": ["a data race = two different goroutines simultaneously about to access shared cache state, in some schedule",
                     "'switches atomically between two states' = one Spec file replaced by rename(2) between two contents"],
     "technique": "Lean 4 proof: lock-set theorem over all thread counts, programs and schedules (guarded programs => no two threads ever both at an access, critical sections atomic, no deadlock) + decide that every entry point extracted from cache.go is guarded + inductive invariant of the refresh/query machine (every finished query read all index maps from one scan); race-detector build of the harness running operation sets with the watcher and an atomically flipping directory",
-    "level_text": "Kernel-checked theorems: (1) for every assignment of guarded programs (every access between Lock and Unlock, no nested Lock, mutex released at the end) to any number of threads and every schedule, no reachable state has two threads about to access shared state, while one thread is in its critical section no other thread can step, and some thread can always step while work is left; (2) the fact obligation that every exported Cache method and the watcher goroutine, as extracted from the source on each run, is guarded, and that the index maps are replaced / read within one critical section; (3) for any number of refreshers and queries under every schedule a finished query has read all maps from one admissible scan. Tied to the code by the regenerated access table and by running pairs and sets of the 14 public operations concurrently with the watcher goroutine and a directory flipping atomically between two states, in a race-detector build, classifying every ListDevices/GetVendorSpecs/InjectDevices result as state A or state B, with a watchdog for hangs.",
+    "level_text": "Kernel-checked theorems: (1) for every assignment of guarded programs (every access between Lock and Unlock, no nested Lock, mutex released at the end) to any number of threads and every schedule, no reachable state has two threads about to access shared state, while one thread is in its critical section no other thread can step, and some thread can always step while work is left; (2) the fact obligation that every exported Cache method and the watcher goroutine, as extracted from the source on each run, is guarded, and that the index maps are replaced / read within one critical section; (3) for any number of refreshers and queries under every schedule a finished query has read all maps from one admissible scan. Tied to the code by the regenerated access table and by running pairs and sets of the 14 public operations concurrently with the watcher goroutine and a directory flipping atomically between two states, in a race-detector build, classifying every ListDevices/GetVendorSpecs/InjectDevices result as state A or state B, with a watchdog for hangs. A deterministic snapshot scenario of the names stream is read as a secondary stream: a Spec that shadows a lower-priority definition is removed again, and at every moment the device resolves to one of the two.",
     "level_note": "Partial: goroutine scheduling, the memory model and the race detector are the runtime's; the access table flattens control flow; objects reachable from returned values are assumed immutable.",
 }
 
@@ -269,7 +269,7 @@ PROPS["C20"] = {
     "assumptions": ["I11: 'behaves like a cache newly created with the resulting options' is observed on devices, file errors, configured directories, and on whether new Specs in final/dropped directories become visible without/with Refresh",
                     "resource footprint = open descriptors, inotify instances, kernel watches and goroutines of the process, relative to the footprint before the cache existed"],
     "technique": "Lean 4 proof: Configure over any option history equals newCache of the accumulated options (fold lemma), resources bounded by one watcher and |dirs| watches whatever the history, nil watcher => every query rescans; correspondence on option histories up to 200 steps with /proc resource accounting, descriptor exhaustion at a chosen step, and the package default cache in a child process",
-    "level_text": "Kernel-checked theorems over the model of configure/Configure/NewCache/default Configure: for every initial option list and every non-empty history of option lists (every environment: which directories exist, whether a descriptor can be had at each step) the final state equals the state of a cache freshly created with the accumulated options under the last step's environment; the resources held (watchers, watch goroutines, kernel watches) are at most 1, 1 and the number of distinct configured directories whatever the history length; when no descriptor can be had, auto-refresh queries always rescan. Tied to the code by running generated histories (1-200 steps) on a real cache and comparing with a fresh cache: same answers, the same descriptor/inotify/watch/goroutine footprint as the fresh cache and as the model predicts, nothing left after stop, new Specs picked up automatically iff auto-refresh is finally on and never from dropped directories; plus RLIMIT_NOFILE exhaustion at a chosen step and the default cache in a child process (Configure first / after use / twice).",
+    "level_text": "Kernel-checked theorems over the model of configure/Configure/NewCache/default Configure: for every initial option list and every non-empty history of option lists (every environment: which directories exist, whether a descriptor can be had at each step) the final state equals the state of a cache freshly created with the accumulated options under the last step's environment; the resources held (watchers, watch goroutines, kernel watches) are at most 1, 1 and the number of distinct configured directories whatever the history length; when no descriptor can be had, auto-refresh queries always rescan. Tied to the code by running generated histories (1-200 steps) on a real cache and comparing with a fresh cache: same answers, the same descriptor/inotify/watch/goroutine footprint as the fresh cache and as the model predicts, nothing left after stop, new Specs picked up automatically iff auto-refresh is finally on and never from dropped directories; plus RLIMIT_NOFILE exhaustion at a chosen step and the default cache in a child process (Configure first / after use / twice). Histories also contain steps that make the watcher's event queue overflow before a reconfiguration, and after every history a Spec file of a final directory is rewritten in place and must be picked up.",
     "level_note": "Partial: descriptor and goroutine release is the runtime's and fsnotify's; the model counts resources per watcher.",
 }
 
